@@ -344,7 +344,7 @@ async def run_on_store(case, kind, store, acc: Acc, viols: list, trace: list):
         nonlocal stopped
         got = await store.query(_mk_query({}))
         rows = {_row(x)[0]: _row(x) for x in got}
-        if capped:
+        if capped and retention_point:  # a delete never evicts: after it only the plain table comparison applies
             acc.hit("retention_checked")
             adm, keep = model.admissible_terminal_sets()
             nonterm = {i for i, r in model.t.items() if r["status"] not in TERMINAL}
